@@ -295,6 +295,9 @@ pub fn run(cfg: &Cfg) -> i32 {
     // lists that share item names, used unqualified (name resolution must not depend on table order)
     pool.push(("shared-items-1".into(), "LIST colours = (red), green, shared\nLIST moods = calm, (shared), angry\nVAR v = 0\n-> start\n=== start ===\n~ v = LIST_VALUE(shared)\nValue {v} {(shared)} {(shared, red)} {colours ? (shared)}\n* [go] -> other\n=== other ===\n{(calm, shared)} {LIST_ALL((shared))}\n-> END\n".into()));
     pool.push(("shared-items-2".into(), "LIST a = x, (y), z\nLIST b = (x), y, w\nLIST c = z, w, (x)\nFirst {(x)} {(y, z)} {(w)}\n~ temp t = (x, w)\n{t} {LIST_COUNT(t)} {LIST_MIN((z, y))}\n-> END\n".into()));
+    // constants defined from constants (any table the compiler keeps them in must not leak its order into the output)
+    pool.push(("const-chain-1".into(), "CONST BASE = 2\nCONST STEP = BASE + 1\nCONST LIMIT = STEP * 2\nCONST TOP = LIMIT + STEP\nCONST NAME = \"ink\"\nCONST FLAG = true\nVAR v = LIMIT\n-> start\n=== start ===\nlimit {LIMIT} top {TOP} step {STEP} base {BASE} {NAME} {FLAG}\n~ v = TOP - BASE\n* {v > LIMIT} [go {TOP}] -> other\n* [stay] -> END\n=== other ===\n{TOP + LIMIT + STEP + BASE} {v}\n-> END\n".into()));
+    pool.push(("const-chain-2".into(), "CONST A = 1\nCONST B = A + A\nCONST C = B + A\nCONST D = C + B\nCONST E = D + C\nCONST F = E + D\nCONST G = F + E\nLIST l = (p), q, r\nVAR w = G\n{A} {B} {C} {D} {E} {F} {G} {w}\n~ w = G - F + LIST_VALUE(q)\n{w > E: big|small} {l}\n-> END\n".into()));
     let texts: Vec<String> = pool.iter().map(|p| p.1.clone()).collect();
     let mut classes: std::collections::BTreeMap<String, u64> = Default::default();
     let mut timings: Vec<f64> = Vec::new();
@@ -317,7 +320,7 @@ pub fn run(cfg: &Cfg) -> i32 {
                 continue;
             }
             let mut rng = Rng::derive(cfg.seed, "C06", k);
-            let (name, base) = if k % 40 == 7 { &pool[pool.len() - 1 - (k as usize / 40) % 2] } else { &pool[rng.below(pool.len())] };
+            let (name, base) = if k % 40 == 7 { &pool[pool.len() - 1 - (k as usize / 40) % 4] } else { &pool[rng.below(pool.len())] };
             let mut src = base.clone();
             let mut how = Vec::new();
             let nm = if k % 50 == 0 { 0 } else { 1 + rng.below(3) };
